@@ -35,10 +35,11 @@ def xml_error(b):
         return str(e)
 
 
-def convert(jobs, variant="asan", data=False):
-    """jobs: list of (doc bytes, fmt name, ext int, lang int) -> list of Result"""
+def convert(jobs, variant="asan", data=False, directory=None, string_api=False):
+    """jobs: list of (doc bytes, fmt name, ext int, lang int) -> list of Result; directory: where assets are looked up (data API only)"""
     har = common.build_harness(variant, "conv")
-    cases = ["%d %d %d %s%s" % (FMT[f], e, l, d.hex() or "-", " D" if f in DATA_API or data else "") for d, f, e, l in jobs]
+    dsuf = (" " + directory.encode().hex()) if directory else ""
+    cases = ["%d %d %d %s%s" % (FMT[f], e, l, d.hex() or "-", (" D" + dsuf) if (f in DATA_API or data) and not string_api else "") for d, f, e, l in jobs]
     outs = common.run_lines_par(har, cases, timeout=3600)
     res = []
     for (d, f, e, l), o in zip(jobs, outs):
